@@ -103,8 +103,8 @@ theorem not_mem_keys_of_lookupA_none {β : Type} (k : Nat) (l : List (Nat × β)
 
 structure BSJust (pw : Addr → Nat) (J : Addr → VoteType → Prop) (bs : BallotSet) : Prop where
   nodup : (keysA bs.ballots).Nodup
-  pv : bs.perPrevote = tally pw .prevote bs.ballots
-  pc : bs.perPrecommit = tally pw .precommit bs.ballots
+  pv : bs.perPrevote = tally pw .prevote bs.ballots % wordMod
+  pc : bs.perPrecommit = tally pw .precommit bs.ballots % wordMod
   just : ∀ a f, lookupA a bs.ballots = some f → ∀ t, flagOf t f = true → J a t
 
 theorem BSJust_empty (pw : Addr → Nat) (J : Addr → VoteType → Prop) : BSJust pw J BallotSet.empty :=
@@ -164,16 +164,16 @@ theorem BSJust_ensure (pw : Addr → Nat) (J : Addr → VoteType → Prop) (bs :
 theorem BSJust_flag_pv (pw : Addr → Nat) (J : Addr → VoteType → Prop) (bs : BallotSet) (a : Addr)
     (f0 : Bool × Bool) (hj : BSJust pw J bs) (hl : lookupA a bs.ballots = some f0)
     (hoff : flagOf .prevote f0 = false) (hJ : J a .prevote) :
-    BSJust pw J { bs with ballots := setA a (setFlag .prevote f0) bs.ballots, perPrevote := bs.perPrevote + pw a } := by
+    BSJust pw J { bs with ballots := setA a (setFlag .prevote f0) bs.ballots, perPrevote := (bs.perPrevote + pw a) % wordMod } := by
   obtain ⟨n1, n2, n3, n4⟩ := BSJust_setFlag pw J bs a .prevote f0 hj hl hoff hJ
-  exact ⟨n1, by simp only; rw [n2, hj.pv], by simp only; rw [n3 .precommit (by decide), hj.pc], n4⟩
+  exact ⟨n1, by simp only; rw [n2, hj.pv, Nat.mod_add_mod], by simp only; rw [n3 .precommit (by decide), hj.pc], n4⟩
 
 theorem BSJust_flag_pc (pw : Addr → Nat) (J : Addr → VoteType → Prop) (bs : BallotSet) (a : Addr)
     (f0 : Bool × Bool) (hj : BSJust pw J bs) (hl : lookupA a bs.ballots = some f0)
     (hoff : flagOf .precommit f0 = false) (hJ : J a .precommit) :
-    BSJust pw J { bs with ballots := setA a (setFlag .precommit f0) bs.ballots, perPrecommit := bs.perPrecommit + pw a } := by
+    BSJust pw J { bs with ballots := setA a (setFlag .precommit f0) bs.ballots, perPrecommit := (bs.perPrecommit + pw a) % wordMod } := by
   obtain ⟨n1, n2, n3, n4⟩ := BSJust_setFlag pw J bs a .precommit f0 hj hl hoff hJ
-  exact ⟨n1, by simp only; rw [n3 .prevote (by decide), hj.pv], by simp only; rw [n2, hj.pc], n4⟩
+  exact ⟨n1, by simp only; rw [n3 .prevote (by decide), hj.pv], by simp only; rw [n2, hj.pc, Nat.mod_add_mod], n4⟩
 
 /-- `ballotSet.add` keeps the ballot set justified. -/
 theorem BSJust_add (pw : Addr → Nat) (J : Addr → VoteType → Prop) (bs : BallotSet) (a : Addr)
@@ -191,8 +191,8 @@ theorem BSJust_add (pw : Addr → Nat) (J : Addr → VoteType → Prop) (bs : Ba
       | precommit => exact BSJust_flag_pc pw J bs a f0 hj hl hoff hJ
   | none =>
     simp only [lookupA_setA_same, Option.getD_some]
-    have hj1 := BSJust_ensure pw J bs a (bs.total + pw a) hj hl
-    have hl1 : lookupA a ({ bs with ballots := setA a (false, false) bs.ballots, total := bs.total + pw a } : BallotSet).ballots
+    have hj1 := BSJust_ensure pw J bs a ((bs.total + pw a) % wordMod) hj hl
+    have hl1 : lookupA a ({ bs with ballots := setA a (false, false) bs.ballots, total := (bs.total + pw a) % wordMod } : BallotSet).ballots
         = some (false, false) := lookupA_setA_same _ _ _
     cases t with
     | prevote =>
@@ -285,10 +285,10 @@ theorem BSJust_per_le (vals : List Addr) (pw : Addr → Nat) (J : Addr → VoteT
     apply wsumL_mono
     intro x _ ⟨f, h1, h2⟩
     exact hj.just x f h1 t h2
-  have h3 : bs.per t = tally pw t bs.ballots := by
+  have h3 : bs.per t ≤ tally pw t bs.ballots := by
     cases t
-    · exact hj.pv
-    · exact hj.pc
+    · show bs.perPrevote ≤ _; rw [hj.pv]; exact Nat.mod_le _ _
+    · show bs.perPrecommit ≤ _; rw [hj.pc]; exact Nat.mod_le _ _
   omega
 
 open Juno.C12.Abs
